@@ -738,7 +738,7 @@ fn main() {
     }
     rep.count_n("corpus_histories", hists.len() as u64);
     if args.replay.is_none() {
-        let (n_part, n_rand) = if args.thorough() { (60, 240) } else { (12, 45) };
+        let (n_part, n_rand) = if args.thorough() { (60, 240) } else { (8, 26) };
         for _ in 0..n_part {
             let len = 1 + rng.usize(6);
             hists.push(("partial".into(), gen_partial(&mut rng, len)));
